@@ -31,7 +31,7 @@ class Unit:
     def __init__(self, name, tu, harness, enforce=None, replace=(), shape="U", props=(), loops=False,
                  unwind=None, unwindset=(), defs=(), covers=0, timeout=(300, 1800), mem=16, tiers=("quick", "thorough"),
                  bound=None, tdefs=None, funcs=None, expect_loop_obligations=0, rec=False, extra_cbmc=(), note="",
-                 safety_props=None, no_contract=False, nondet_static=False, tunwind=None):
+                 safety_props=None, no_contract=False, nondet_static=False, tunwind=None, checks_off=(), bounded_loops=()):
         self.name = name; self.tu = tu; self.harness = harness; self.enforce = enforce
         self.replace = list(replace); self.shape = shape; self.props = list(props); self.loops = loops
         self.unwind = unwind; self.unwindset = list(unwindset); self.defs = list(defs); self.covers = covers
@@ -44,6 +44,8 @@ class Unit:
         self.safety_props = list(safety_props) if safety_props is not None else list(props)
         self.no_contract = no_contract      # plain harness (W/B shapes): no --enforce-contract
         self.nondet_static = nondet_static
+        self.checks_off = list(checks_off)      # checks disabled for this unit, with the reason in `note`
+        self.bounded_loops = list(bounded_loops)  # S/B units: regexes of unwinding assertions that ARE the stated bound
         self.entry = "h_" + name
 
 def make_scratch():
@@ -79,7 +81,7 @@ def run_unit(u, scratch, tier="quick", use_cache=True, keep=False):
     res = {"unit": u.name, "shape": u.shape, "tier": tier, "status": "undecided", "reason": "", "obligations": [],
            "wall_s": 0.0, "solver_s": 0.0, "backend": "cbmc 6.11.0 / SAT cadical", "cached": False, "bound": u.bound,
            "functions": u.funcs, "covers": []}
-    defs = BASE_DEFS + ["-DVF_TIER_" + tier.upper()] + u.defs + u.tdefs.get(tier, [])
+    defs = BASE_DEFS + ["-DVF_TIER_" + tier.upper()] + (["-DVF_ENF_" + u.enforce] if u.enforce else []) + u.defs + u.tdefs.get(tier, [])
     harness = os.path.join(VERIF, u.harness)
     inc = ["-I", scratch, "-I", os.path.join(VERIF, "specs"), "-I", os.path.join(VERIF, "harness")]
     timeout = u.timeout[0] if tier == "quick" else u.timeout[1]
@@ -89,7 +91,7 @@ def run_unit(u, scratch, tier="quick", use_cache=True, keep=False):
     if rc != 0:
         res["reason"] = "preprocess failed: " + err[-2000:]
         return _finish(res, t0, work, keep)
-    flags = json.dumps([u.entry, u.enforce, u.replace, u.loops, unwind, u.unwindset, u.rec, u.extra_cbmc, CBMC_CHECKS, u.no_contract, u.nondet_static, u.covers])
+    flags = json.dumps([u.entry, u.enforce, u.replace, u.loops, unwind, u.unwindset, u.rec, u.extra_cbmc, CBMC_CHECKS, u.checks_off, u.no_contract, u.nondet_static, u.covers])
     pre_n = re.sub(r'^# \d+ "[^"]*".*$', "", _norm(pre, scratch), flags=re.M)
     key = hashlib.sha256((pre_n + flags).encode()).hexdigest()
     cpath = os.path.join(CACHE, key + ".json")
@@ -107,7 +109,7 @@ def run_unit(u, scratch, tier="quick", use_cache=True, keep=False):
     if rc != 0:
         res["reason"] = "goto-cc failed: " + (err + out)[-3000:]
         return _finish(res, t0, work, keep)
-    rc, out, err, _ = sh(["goto-instrument", "--add-library", gb0, gb1], 300)
+    rc, out, err, _ = sh(["goto-instrument", "--no-malloc-may-fail", "--add-library", gb0, gb1], 300)
     if rc != 0:
         res["reason"] = "add-library failed: " + (err + out)[-3000:]
         return _finish(res, t0, work, keep)
@@ -135,11 +137,15 @@ def run_unit(u, scratch, tier="quick", use_cache=True, keep=False):
             return _finish(res, t0, work, keep)
         cur = gb2
     # ---- solve
-    cmd = ["cbmc", cur, "--sat-solver", "cadical", "--object-bits", "12"] + CBMC_CHECKS + ["--json-ui", "--trace", "--unwinding-assertions", "--drop-unused-functions"]
+    cmd = ["cbmc", cur, "--sat-solver", "cadical", "--object-bits", "12"] + [c for c in CBMC_CHECKS if c not in u.checks_off] + ["--json-ui", "--trace", "--unwinding-assertions", "--drop-unused-functions"]
     if unwind is not None:
         cmd += ["--unwind", str(unwind)]
-    if u.unwindset:
-        cmd += ["--unwindset", ",".join(u.unwindset)]
+    # loops of the contracts library iterate over the assigns/frees targets: give them their own generous bound
+    lib = ["__CPROVER_contracts_write_set_check_assigns_clause_inclusion.0:80", "__CPROVER_contracts_write_set_check_frees_clause_inclusion.0:80",
+           "__CPROVER_contracts_write_set_deallocate_freeable.0:80", "__CPROVER_contracts_write_set_deallocate_freeable.1:80",
+           "__CPROVER_contracts_write_set_deallocate_freeable.2:80"] if cur == gb2 else []
+    if u.unwindset or lib:
+        cmd += ["--unwindset", ",".join(list(u.unwindset) + lib)]
     cmd += u.extra_cbmc
     res["checker_cmd"] = " ".join(c if c != cur else "<unit>.gb" for c in cmd)
     rc, out, err, wall = sh(cmd, timeout, mem_gb=u.mem)
@@ -184,6 +190,13 @@ def run_unit(u, scratch, tier="quick", use_cache=True, keep=False):
         obs.append(o)
     res["obligations"] = obs
     res["status"] = "done"
+    # ---- loop contracts must have produced their obligations (a silently dropped contract only shows as a timeout)
+    loops_seen = set(o["desc"].split("for loop ")[-1].strip() for o in obs if ".loop_invariant_step." in o["name"])
+    res["loop_contracts_checked"] = sorted(loops_seen)
+    if len(loops_seen) < u.expect_loop_obligations:
+        res["status"] = "undecided"
+        res["reason"] = "expected %d loop contracts with loop_invariant_step obligations, saw %d" % (u.expect_loop_obligations, len(loops_seen))
+        return _finish(res, t0, work, keep)
     # ---- covers (vacuity): VF_COVER(c) is `assert(!c)` and must FAIL (= c is reachable after the call)
     cov = [o for o in obs if o["desc"].startswith("VF_COVER")]
     res["covers"] = [{"goal": o["desc"], "status": "satisfied" if o["status"] == "FAILURE" else "unreachable"} for o in cov]
@@ -244,7 +257,7 @@ if __name__ == "__main__":
             shutil.rmtree(scratch, ignore_errors=True)
     fails = [o for o in r["obligations"] if o["status"] != "SUCCESS"]
     print("unit %s: %s %s  obligations=%d failed=%d wall=%.1fs solver=%.1fs" % (name, r["status"], r["reason"], len(r["obligations"]), len(fails), r["wall_s"], r["solver_s"]))
-    for o in fails:
+    for o in fails[:int(os.environ.get("MAXFAIL", "12"))]:
         print("  FAIL %s [%s:%d] %s tags=%s" % (o["name"], o["file"], o["line"], o["desc"], o["tags"]))
         if os.environ.get("TRACE"):
             for s in o.get("trace", []):
